@@ -344,6 +344,9 @@ def gen_storage(rng, g, cfg, name, nodes, prices):
 
 
 def gen_multi(rng, g, cfg, name, nodes, prices):
+    if rng.random() < cfg.get('p_dupnode', 0.0):
+        # the same node twice (e.g. own consumption booked as a separate factor at the power node)
+        nodes = list(nodes) + [rng.choice(nodes)]
     a = {'kind': 'MultiCommodityContract', 'name': name, 'nodes': nodes}
     a['price'] = new_price(rng, g, prices)
     a['min_cap'] = -k8(rng, 0, 5) if rng.random() < 0.5 else 0.0
